@@ -1,4 +1,5 @@
 import LiquidVerif.Model.BoolParse
+import LiquidVerif.Model.ExprLex
 /-!
 Model of the `__str__` methods that serialise a template (`liquid/template.py`, `liquid/ast.py`,
 `liquid/builtin/output.py`, `liquid/builtin/expressions/*.py`, `liquid/builtin/tags/*.py`), as they
@@ -102,17 +103,25 @@ def keywords : List String :=
   ["true", "false", "nil", "null", "empty", "blank", "and", "or", "contains", "not", "in", "offset",
    "limit", "reversed", "cols", "continue", "with", "for", "as", "if", "else", "required"]
 
-/-- `RE_PROPERTY = [\u0080-￿a-zA-Z_][\u0080-￿a-zA-Z0-9_-]*` -/
-def isPropStart (c : Char) : Bool :=
-  ('a' ≤ c && c ≤ 'z') || ('A' ≤ c && c ≤ 'Z') || c == '_' || (0x80 ≤ c.toNat && c.toNat ≤ 0xFFFF)
+/-- `RE_PROPERTY = (?!\d+(?!\w))\w[\w\-]*\??` (after `fix:` 07687ad): the lexer's identifier pattern
+`\w[\w\-]*\??`, minus the strings whose leading digits the lexer would scan as an INTEGER (`\d+\b`).
+Character classes are those of the C20 lexer model (`ExprLex.isWord`, `ExprLex.isDigit`). -/
+def isWordBody (c : Char) : Bool := ExprLex.isWord c || c == '-'
 
-def isPropRest (c : Char) : Bool := isPropStart c || ('0' ≤ c && c ≤ '9') || c == '-'
+def intPrefix (cs : List Char) : Bool :=
+  let ds := ExprLex.spanP ExprLex.isDigit cs
+  !ds.1.isEmpty && (match ds.2 with | [] => true | c :: _ => !ExprLex.isWord c)
+
+def isWordText (cs : List Char) : Bool :=
+  match cs with
+  | [] => false
+  | c :: r =>
+    ExprLex.isWord c &&
+      (let body := ExprLex.spanP isWordBody r
+       body.2 == [] || body.2 == ['?']) && !intPrefix cs
 
 /-- `RE_PROPERTY.fullmatch(segment) and segment not in _keywords` -/
-def isProperty (s : String) : Bool :=
-  match s.toList with
-  | [] => false
-  | c :: cs => isPropStart c && cs.all isPropRest && !keywords.contains s
+def isProperty (s : String) : Bool := isWordText s.toList && !keywords.contains s
 
 def quoteS (s : String) : String := String.ofList (quoteStr s.toList)
 
